@@ -206,6 +206,13 @@ def run(tier: str, replay=None) -> int:
         import random as _r
         _r.Random(seed() * 31 + 4).shuffle(cps)
         cps = cps[:240]
+    vi = semprops.common_type_value_independence()
+    if tier == "quick":
+        import random as _r
+        folded = [a for a in vi if len(a) == 1]
+        _r.Random(seed() * 37 + 4).shuffle(folded)
+        vi = folded[:260] + [a for a in vi if len(a) > 1]
+    cps = cps + vi
     ties = semprops.tree_ties(cps) if not replay else []
     rc_ = __import__("realcode"); rc_.close_pool()
     tie_bad = [t for t in ties if t[1] == "ok" and t[2] is False]
